@@ -12,20 +12,27 @@ for d in sorted(glob.glob(V + '/seeded/*/patch.diff')):
 for d in sorted(glob.glob(V + '/mutants/*.diff')):
     n = os.path.basename(d)[:-5]; items.append(('mutant', n, d, n.split('-')[0]))
 rows = []
+from concurrent.futures import ThreadPoolExecutor
+jobs = []
 for kind, name, patch, pid in items:
     if only and only not in name: continue
     extra = json.load(open(os.path.dirname(patch) + '/meta.json')).get('also_check', []) if kind == 'seeded' else []
     for chk in [pid] + extra:
-        p = subprocess.run([V + '/tools/try_patch.py', patch, chk], capture_output=True, text=True, env=dict(os.environ, VERIF_TIER=tier))
-        line = (p.stdout.strip().splitlines() or ['?'])[-1]
-        m = re.search(r'rc=(\d+)\s*(.*)', line)
-        rc, keys = (int(m.group(1)), m.group(2)) if m else (-1, line)
-        key = keys.split(':')[0].strip() + ':' + keys.split(':')[1].split(' ')[0] if keys.count(':') >= 1 else keys[:60]
-        rows.append((kind, name, chk, rc, keys[:140]))
-        print(kind, name, chk, 'rc=%d' % rc, keys[:100], flush=True)
+        jobs.append((kind, name, patch, pid, chk))
+def one(j):
+    kind, name, patch, pid, chk = j
+    p = subprocess.run([V + '/tools/try_patch.py', patch, chk], capture_output=True, text=True, env=dict(os.environ, VERIF_TIER=tier))
+    line = (p.stdout.strip().splitlines() or ['?'])[-1]
+    m = re.search(r'rc=(\d+)\s*(.*)', line)
+    rc, keys = (int(m.group(1)), m.group(2)) if m else (-1, line)
+    print(kind, name, chk, 'rc=%d' % rc, keys[:100], flush=True)
+    return (kind, name, chk, rc, keys[:140], patch, pid)
+with ThreadPoolExecutor(int(os.environ.get('MATRIX_JOBS', '4'))) as ex:
+    for kind, name, chk, rc, keys, patch, pid in ex.map(one, jobs):
+        rows.append((kind, name, chk, rc, keys))
         if kind == 'seeded' and chk == pid:
             mp = os.path.dirname(patch) + '/meta.json'; meta = json.load(open(mp))
-            meta['caught_by'] = {'check': chk, 'tier': tier, 'exit': rc, 'first_violation': keys[:200]} if rc == 1 else {'check': chk, 'tier': tier, 'exit': rc, 'first_violation': None}
+            meta['caught_by'] = {'check': chk, 'tier': tier, 'exit': rc, 'first_violation': keys[:200] if rc == 1 else None}
             json.dump(meta, open(mp, 'w'), indent=1)
 if not only:
     with open(V + '/seeded/MATRIX.md', 'w') as f:
